@@ -45,6 +45,37 @@ ACCEPTS = [None, '*/*', 'application/json', 'text/xml', 'application/xml', 'appl
            'application/xml, text/xml;q=0.9, */*;q=0.1', 'garbage', 'application/json, */*;q=0.5',
            'text/*', 'application/*', 'application/xml;q=0', 'application/x-test;q=0.3, application/xml;q=0.4',
            'image/png, application/problem+json', 'image/png, application/atom+xml;q=0.2']
+MT_EXACT = ['application/json', 'application/xml', 'text/xml', X_TEST]
+MT_VENDOR_JSON = ['application/vnd.api+json', 'application/problem+json', 'application/hal+JSON', 'image/svg+json']
+MT_VENDOR_XML = ['application/atom+xml', 'application/vnd.x+xml', 'image/svg+XML', 'application/rss+xml']
+MT_OTHER = ['text/csv', 'image/png', 'text/html', 'application/octet-stream', 'text/plain', 'application/yaml',
+            'multipart/mixed']
+MT_WILD = ['*/*', 'application/*', 'text/*', 'image/*']
+PARAMS = ['', '', '', ';q=0.2', ';q=0.9', '; q=0', ';charset=utf-8', ';version=2;q=0.5', '; q=1.0', ';q=0.001']
+
+
+def gen_accept(rng):
+    """Accept headers from a grammar: 1-4 media ranges over exact / vendor+json / vendor+xml /
+    other / wildcard types, with and without parameters and q-values, any order."""
+    k = rng.random()
+    if k < 0.06:
+        return None
+    if k < 0.1:
+        return rng.choice(['garbage', '', 'application/json;q=abc', ',', 'a/b/c'])
+    n = rng.choice([1, 1, 2, 2, 3, 4])
+    # families drawn with a bias towards headers that match nothing directly (no wildcard,
+    # no exact type): those exercise the '+json' / '+xml' substring fallbacks
+    profile = rng.choice(['any', 'any', 'vendor-only', 'vendor-only', 'no-wild'])
+    fams = {'any': [MT_EXACT, MT_VENDOR_JSON, MT_VENDOR_XML, MT_OTHER, MT_WILD],
+            'vendor-only': [MT_VENDOR_JSON, MT_VENDOR_XML, MT_OTHER, MT_OTHER],
+            'no-wild': [MT_EXACT, MT_VENDOR_JSON, MT_VENDOR_XML, MT_OTHER]}[profile]
+    parts = []
+    for _ in range(n):
+        mt = rng.choice(rng.choice(fams))
+        parts.append(mt + rng.choice(PARAMS))
+    return rng.choice([', ', ',', ' , ']).join(parts)
+
+
 HEADER_SETS = [None, [], [['X-Err', '1']], [['x-err', '2'], ['X-Other', 'v']], {'Vary': 'Origin'},
                [['Content-Type', 'text/plain']], {'X-Err': 'dict'}]
 STATUSES = [400, 404, 409, 418, 500, 503, 299, 200, 745]
@@ -260,7 +291,8 @@ def build_scenario(rng, falcon):
         if ex is None:
             ex = ValueError('x')
     return {'classes': classes, 'hist': hist, 'scripts': scripts, 'site': site, 'ex': ex,
-            'writes': gen_writes(rng), 'accept': rng.choice(ACCEPTS), 'xml': rng.random() < 0.7,
+            'writes': gen_writes(rng), 'accept': rng.choice(ACCEPTS) if rng.random() < 0.35 else gen_accept(rng),
+            'xml': rng.random() < 0.7,
             'handlers': rng.choice(['default', 'default', 'xtest', 'jsononly']),
             'render_media': rng.choice([1, 1, 2]) if site == 'render' else None}
 
@@ -435,15 +467,33 @@ def wire_hist(sc):
     return out
 
 
+def handlers_for(falcon, kind):
+    import falcon.media
+    if kind == 'jsononly':
+        return falcon.media.Handlers({falcon.MEDIA_JSON: falcon.media.JSONHandler()})
+    h = falcon.media.Handlers()
+    if kind == 'xtest':
+        h[X_TEST] = XTestHandler(falcon.media)
+    return h
+
+
 def media_fails_table(falcon, sc):
     """what rendering resp.media raises (exception objects obtained from the live handlers):
-    [[content types that do not resolve], [application objects that do not serialize]]"""
-    import falcon.media
+    [[content types whose handler does not resolve or cannot serialize], [application objects
+    that do not serialize]]"""
     ctypes, tags = [], []
+    handlers = handlers_for(falcon, sc['handlers'])
     try:
-        falcon.media.Handlers()._resolve('application/x-unknown', falcon.MEDIA_JSON)
+        handlers._resolve('application/x-unknown', falcon.MEDIA_JSON)
     except falcon.HTTPError as e:
         ctypes.append(['application/x-unknown', wire_exc(falcon, e)])
+    for mt in list(handlers):
+        # request-only handlers (multipart) cannot serialize: negotiating such a type for an
+        # error makes rendering fail
+        try:
+            handlers._resolve(mt, falcon.MEDIA_JSON)[0].serialize({'title': 'x'}, mt)
+        except Exception as e:  # noqa
+            ctypes.append([mt, wire_exc(falcon, e)])
     try:
         json.dumps(object())
     except TypeError as e:
@@ -517,6 +567,9 @@ def body_matches(mbody, body):
                 return json.loads(body[2:].decode('utf-8')) == exp, 'x-test media error body'
             return json.loads(body.decode('utf-8')) == exp, 'media error body'
         except Exception as e:
+            import urllib.parse
+            if body == urllib.parse.urlencode(exp, doseq=True).encode():
+                return True, 'urlencoded media error body'
             return False, 'undecodable media body: %r' % e
     try:
         return json.loads(body.decode('utf-8')) == MEDIA_OBJ[d[1]], 'application media'
@@ -591,6 +644,11 @@ def check_scenarios(ctx, model, falcon, testing, seeds, asgi_choice):
             for k, v in mh.items():
                 if obs['headers'].get(k) != v:
                     diffs.append('header %s: model %r, impl %r' % (k, v, obs['headers'].get(k)))
+            # the FULL header set: nothing but the model's headers and the two framing
+            # headers the framework supplies while sending (C05)
+            for k in obs['headers']:
+                if k not in mh and k not in ('content-length', 'content-type'):
+                    diffs.append('header %s: foreign header %r in the response' % (k, obs['headers'][k]))
             ok, what = body_matches(mres[3], obs['body'])
             if not ok:
                 diffs.append('body (%s): impl %r' % (what, obs['body'][:200]))
@@ -616,6 +674,328 @@ def check_scenarios(ctx, model, falcon, testing, seeds, asgi_choice):
             else:
                 ctx.violation('handler-selection-violated', detail, key='oracle-%s' % f[1])
     return metas
+
+
+# ------------------------------------------------------------------ generic request driver
+
+def call_app(testing, app, asgi, method='GET', path='/', headers=None):
+    """one request against a real app (direct WSGI / ASGI call); the full observation"""
+    headers = headers or {}
+    obs = {}
+    if asgi:
+        scope = testing.create_scope(path=path, method=method, headers=headers)
+        msgs = [{'type': 'http.request', 'body': b'', 'more_body': False}]
+        sent = []
+
+        async def receive():
+            return msgs.pop(0) if msgs else {'type': 'http.disconnect'}
+
+        async def send(ev):
+            sent.append(ev)
+
+        async def go():
+            await app(scope, receive, send)
+        try:
+            asyncio.run(go())
+            start = [e for e in sent if e['type'] == 'http.response.start']
+            assert len(start) == 1
+            obs['status'] = start[0]['status']
+            obs['headers'] = {k.decode('latin-1').lower(): v.decode('latin-1') for k, v in start[0]['headers']}
+            obs['body'] = b''.join(e.get('body', b'') for e in sent if e['type'] == 'http.response.body')
+            obs['escaped'] = None
+        except BaseException as e:  # noqa
+            obs['escaped'] = type(e).__name__
+    else:
+        env = testing.create_environ(path=path, method=method, headers=headers, wsgierrors=io.StringIO())
+        started = []
+
+        def start_response(status, hdrs, exc_info=None):
+            started.append((status, hdrs))
+        try:
+            body = b''.join(app(env, start_response))
+            assert len(started) == 1
+            obs['status'] = int(started[0][0].split(' ')[0])
+            obs['headers'] = {k.lower(): v for k, v in started[0][1]}
+            obs['body'] = body
+            obs['escaped'] = None
+        except BaseException as e:  # noqa
+            obs['escaped'] = type(e).__name__
+    return obs
+
+
+def negotiation_inputs(falcon, testing, opts, xml, headers):
+    predefined = [falcon.MEDIA_JSON, 'text/xml', falcon.MEDIA_XML] if xml else [falcon.MEDIA_JSON]
+    lst = predefined + [mt for mt in opts.media_handlers if mt not in predefined]
+    req0 = testing.create_req(headers=headers)
+    preferred = req0.client_prefers(lst)
+    resolvable = [t for t in set(lst + [falcon.MEDIA_XML, falcon.MEDIA_JSON])
+                  if opts.media_handlers._resolve(t, falcon.MEDIA_JSON, raise_not_found=False)[0]]
+    return [xml, [] if preferred is None else [preferred], req0.accept, sorted(resolvable)]
+
+
+def response_diffs(mres, obs):
+    """model result vs observation: status, every model header, NO foreign header, body"""
+    diffs = []
+    if (mres[0] == 0) != (obs['escaped'] is not None):
+        diffs.append('escape: model %s, impl %s' % (mres[0] == 0, obs['escaped']))
+    if mres[0] == 1 and obs['escaped'] is None:
+        if mres[1] != obs['status']:
+            diffs.append('status: model %s, impl %s' % (mres[1], obs['status']))
+        mh = {common.wstr(k): common.wstr(v) for k, v in mres[2]}
+        for k, v in mh.items():
+            if obs['headers'].get(k) != v:
+                diffs.append('header %s: model %r, impl %r' % (k, v, obs['headers'].get(k)))
+        for k in obs['headers']:
+            if k not in mh and k not in ('content-length', 'content-type'):
+                diffs.append('header %s: foreign header %r in the response' % (k, obs['headers'][k]))
+        ok, what = body_matches(mres[3], obs['body'])
+        if not ok:
+            diffs.append('body (%s): impl %r' % (what, obs['body'][:200]))
+    return diffs
+
+
+# ------------------------------------------------------------------ one app over time (sessions)
+
+def run_sessions(ctx, model, falcon, testing, seeds_asgi):
+    sessions = [run_session(ctx, model, falcon, testing, seed, asgi) for seed, asgi in seeds_asgi]
+    for i in range(0, len(sessions), 5000):
+        part = sessions[i:i + 5000]
+        for sess, m in zip(part, model.run_many([x['wire'] for x in part])):
+            judge_session(ctx, sess, m)
+
+
+def run_session(ctx, model, falcon, testing, seed, asgi):
+    """add_error_handler calls interleaved with requests on ONE app instance"""
+    import random
+    import falcon.asgi
+    rng = random.Random(seed)
+    init_known(falcon)
+    classes = gen_hierarchy(rng, falcon, rng.randint(2, 7))
+    ran = []
+    cur = {}
+
+    def mk_handler(n):
+        if asgi:
+            async def h(req, resp, ex, params):
+                ran.append(n)
+                resp.status = 590
+        else:
+            def h(req, resp, ex, params):
+                ran.append(n)
+                resp.status = 590
+        return h
+    if asgi:
+        class Res:
+            async def on_get(self, req, resp):
+                raise cur['ex']
+    else:
+        class Res:
+            def on_get(self, req, resp):
+                raise cur['ex']
+    app = (falcon.asgi.App if asgi else falcon.App)()
+    app.add_route('/', Res())
+    catchable = [c for c in classes if issubclass(c, Exception)]
+    reg_pool = classes * 2 + [Exception, falcon.HTTPError, falcon.HTTPStatus, falcon.HTTPNotFound, ValueError,
+                              LookupError, KeyError]
+    raise_pool = catchable * 3 + [ValueError, KeyError, falcon.HTTPNotFound, falcon.HTTPBadRequest, ZeroDivisionError,
+                                  falcon.HTTPStatus]
+    # a few concrete types are raised again and again, with registrations in between
+    targets = [rng.choice(raise_pool) for _ in range(rng.randint(1, 3))]
+    ops, wire_ops, log = [], [], []
+    nreg = 0
+    for _ in range(rng.randint(4, 12)):
+        if rng.random() < 0.45:
+            if rng.random() < 0.3:
+                tup = tuple(rng.choice(reg_pool) for _ in range(rng.randint(1, 3)))
+                if rng.random() < 0.15:
+                    tup = tup[:1] + (int,) + tup[1:]
+            else:
+                tup = (rng.choice(reg_pool),)
+            n = nreg
+            nreg += 1
+            try:
+                app.add_error_handler(tup if len(tup) > 1 else tup[0], mk_handler(n))
+                ok = True
+            except TypeError:
+                ok = False
+            exp_ok = all(issubclass(c, BaseException) for c in tup)
+            if ok != exp_ok:
+                ctx.violation('registration-typeerror', {'session_seed': seed, 'asgi': asgi,
+                                                         'classes': [c.__name__ for c in tup]}, key='sess-reg')
+            wire_ops.append([0, [[[class_id(c), issubclass(c, BaseException)] for c in tup], [3, n]]])
+            log.append(['add_error_handler', [c.__name__ for c in tup], n])
+        else:
+            c = rng.choice(targets)
+            ex = make_instance(rng, falcon, c) or ValueError('x')
+            cur['ex'] = ex
+            del ran[:]
+            obs = call_app(testing, app, asgi)
+            wire_ops.append([1, [class_id(k) for k in type(ex).__mro__]])
+            ops.append((ex, list(ran), obs))
+            log.append(['raise', type(ex).__name__, [k.__name__ for k in type(ex).__mro__], 'ran', list(ran),
+                        obs.get('status'), obs['escaped']])
+    return {'seed': seed, 'asgi': asgi, 'wire': [3, [], wire_ops], 'ops': ops, 'log': log}
+
+
+def judge_session(ctx, sess, m):
+    seed, asgi, ops, log = sess['seed'], sess['asgi'], sess['ops'], sess['log']
+    ctx.count('session')
+    ctx.note_case(('session', seed, asgi), bool(ops))
+    bad = []
+    if m[1] != m[2]:
+        ctx.violation('model-fails-own-oracle', {'session_seed': seed, 'model': m}, found_input=False, key='sess-model')
+    for k, ((ex, r, obs), exp) in enumerate(zip(ops, m[2])):
+        if not exp:
+            good = obs['escaped'] is not None and not r
+        elif exp[0][0] == 3:
+            good = r == [exp[0][1]] and obs['escaped'] is None and obs['status'] == 590
+        elif exp[0][0] == 0:
+            good = not r and obs['escaped'] is None and obs['status'] == 500
+        else:
+            good = not r and obs['escaped'] is None and obs['status'] == ex.status_code
+        if not good:
+            bad.append({'request_index': k, 'raised': type(ex).__name__, 'expected_handler': exp,
+                        'impl_ran': r, 'impl_status': obs.get('status'), 'impl_escaped': obs['escaped']})
+    if bad:
+        ctx.violation('handler-selection-violated',
+                      {'session_seed': seed, 'asgi': asgi, 'what': 'registrations interleaved with requests on one app',
+                       'session': log, 'mismatches': bad,
+                       'legend': 'expected_handler [[3,n]] = n-th add_error_handler call of the session; [[0,0]] '
+                                 'default Exception handler; [[1,0]] default HTTPError; [[2,0]] default HTTPStatus'},
+                      key='session-%d' % asgi)
+
+
+# ------------------------------------------------------------------ sequences of header-bearing errors
+
+ERR_KINDS = ['auto405', '405', '401', '401-none', '429', '503', '413', '416', '404', '429-none']
+
+
+def make_error(falcon, kind, arg, user_headers):
+    kw = {} if user_headers is None else {'headers': [list(p) for p in user_headers]}
+    if kind == '405':
+        return falcon.HTTPMethodNotAllowed(list(arg), **kw)
+    if kind == '401':
+        return falcon.HTTPUnauthorized(challenges=list(arg), **kw)
+    if kind == '401-none':
+        return falcon.HTTPUnauthorized(**kw)
+    if kind == '429':
+        return falcon.HTTPTooManyRequests(retry_after=arg, **kw)
+    if kind == '429-none':
+        return falcon.HTTPTooManyRequests(**kw)
+    if kind == '503':
+        return falcon.HTTPServiceUnavailable(retry_after=arg, **kw)
+    if kind == '413':
+        return falcon.HTTPContentTooLarge(retry_after=arg, **kw) if hasattr(falcon, 'HTTPContentTooLarge') \
+            else falcon.HTTPPayloadTooLarge(retry_after=arg, **kw)
+    if kind == '416':
+        return falcon.HTTPRangeNotSatisfiable(arg, **kw)
+    return falcon.HTTPNotFound(**kw)
+
+
+def wire_ctor(kind, arg):
+    if kind in ('auto405', '405'):
+        return [0, list(arg)]
+    if kind == '401':
+        return [1, list(arg)]
+    if kind == '401-none':
+        return [1, []]
+    if kind in ('429', '503', '413'):
+        return [2, [str(arg)]]
+    if kind == '429-none':
+        return [2, []]
+    if kind == '416':
+        return [3, str(arg)]
+    return [4]
+
+
+def run_error_sequence(ctx, model, falcon, testing, seed):
+    """2-4 different header-bearing HTTPErrors in sequence on the same app and across two app
+    instances (WSGI and ASGI): each response must carry exactly its own error's headers.  The
+    expected headers come from the constructor ARGUMENTS through the model (ctor_headers),
+    never from the live error object."""
+    import random
+    import falcon.asgi
+    rng = random.Random(seed)
+    init_known(falcon)
+    cur = {}
+
+    def build(asgi):
+        if asgi:
+            class Res:
+                async def on_get(self, req, resp):
+                    raise make_error(falcon, *cur['spec'])
+        else:
+            class Res:
+                def on_get(self, req, resp):
+                    raise make_error(falcon, *cur['spec'])
+        app = (falcon.asgi.App if asgi else falcon.App)()
+        app.add_route('/e', Res())
+        return app
+    apps = [(a, build(a)) for a in (rng.random() < 0.5, rng.random() < 0.5)]
+    steps = []
+    cases = []
+    for _ in range(rng.randint(2, 4)):
+        kind = rng.choice(ERR_KINDS)
+        arg = None
+        if kind == '405':
+            arg = rng.choice([['GET'], ['GET', 'POST'], ['PATCH', 'DELETE', 'OPTIONS']])
+        elif kind == 'auto405':
+            arg = ['GET', 'OPTIONS']
+        elif kind == '401':
+            arg = rng.choice([['Basic realm="x"'], ['Bearer', 'Basic realm="y"']])
+        elif kind in ('429', '503', '413'):
+            arg = rng.choice([0, 7, 120, 86400])
+        elif kind == '416':
+            arg = rng.choice([0, 1, 123456])
+        user_headers = None if rng.random() < 0.75 else rng.choice([[['X-Mine', 'v']], [], [['Retry-After', '1']]])
+        if kind == 'auto405':
+            user_headers = None
+        asgi, app = apps[rng.randint(0, 1)]
+        accept = rng.choice([None, None, 'application/xml', 'application/vnd.e+json, text/csv'])
+        headers = {} if accept is None else {'Accept': accept}
+        cur['spec'] = (kind, arg, user_headers)
+        obs = call_app(testing, app, asgi, method='PUT' if kind == 'auto405' else 'GET', path='/e', headers=headers)
+        # attributes other than headers from a reference instance of the same constructor call
+        ref = make_error(falcon, '405' if kind == 'auto405' else kind, arg, None)
+        herr = [ref.status_code, ref.title, [] if ref.description is None else [ref.description],
+                [] if ref.code is None else [ref.code], [], [] if user_headers is None else [user_headers]]
+        exc = [[class_id(k) for k in type(ref).__mro__], [3, wire_ctor(kind, arg), herr]]
+        ncfg = negotiation_inputs(falcon, testing, app.resp_options, True, headers)
+        cases.append([0, True, [], [], ncfg, [[], []], wire_writes({'status': None, 'text': None, 'data': None,
+                                                                      'media': None, 'headers': []}), [exc]])
+        steps.append({'error': kind, 'arg': arg, 'headers_arg': user_headers, 'asgi': bool(asgi),
+                      'app': 0 if app is apps[0][1] else 1, 'accept': accept,
+                      'impl': {k: (v.decode('latin-1') if isinstance(v, bytes) else v) for k, v in obs.items()}})
+    return {'seed': seed, 'cases': cases, 'steps': steps}
+
+
+def run_error_sequences(ctx, model, falcon, testing, seeds):
+    seqs = [run_error_sequence(ctx, model, falcon, testing, seed) for seed in seeds]
+    flat = [c for q in seqs for c in q['cases']]
+    outs = model.run_many(flat)
+    pos = 0
+    for q in seqs:
+        n = len(q['cases'])
+        judge_error_sequence(ctx, q, outs[pos:pos + n])
+        pos += n
+
+
+def judge_error_sequence(ctx, q, outs):
+    seed, steps = q['seed'], q['steps']
+    ctx.count('error-sequence')
+    ctx.note_case(('errseq', seed), True)
+    for k, (st, m) in enumerate(zip(steps, outs)):
+        obs = dict(st['impl'])
+        if isinstance(obs.get('body'), str):
+            obs['body'] = obs['body'].encode('latin-1')
+        diffs = response_diffs(m[1], obs)
+        if diffs:
+            ctx.violation('error-response-differs',
+                          {'sequence_seed': seed, 'what': 'sequence of header-bearing HTTP errors: response %d does not '
+                           'carry exactly its own status/headers/body' % k, 'sequence': steps, 'request_index': k,
+                           'diffs': diffs, 'model': repr(m)}, key='errseq-' + diffs[0].split(':')[0])
+            break
+
 
 
 def registry_cases(ctx, model, falcon, n):
@@ -691,6 +1071,10 @@ def main(ctx):
         ctx.sample({'scenario': describe(falcon, sc), 'asgi': asgi,
                     'impl': {k: (v.decode('latin-1') if isinstance(v, bytes) else v) for k, v in obs.items()}})
     registry_cases(ctx, model, falcon, 3000 if quick else 40000)
+    run_sessions(ctx, model, falcon, testing,
+                 [(ctx.rng.getrandbits(40), ctx.rng.random() < 0.5) for _ in range(1500 if quick else 6000)])
+    run_error_sequences(ctx, model, falcon, testing,
+                        [ctx.rng.getrandbits(40) for _ in range(1000 if quick else 4000)])
     ctx.assumptions += [
         'oracle inputs taken from the live objects: req.client_prefers(predefined + media handlers) and '
         'media_handlers._resolve(type) (content negotiation itself is C11)',
@@ -706,6 +1090,14 @@ def replay(ctx, obj):
     if 'render_media' in obj and 'scenario_seed' not in obj:
         check_scenarios(ctx, model, falcon, testing, [obj], None)
         ctx.note_case('replay-' + repr(sorted(obj.items())), True)
+        return
+    if 'session_seed' in obj:
+        run_sessions(ctx, model, falcon, testing, [(obj['session_seed'], bool(obj.get('asgi')))])
+        ctx.note_case('replay-session', True)
+        return
+    if 'sequence_seed' in obj:
+        run_error_sequences(ctx, model, falcon, testing, [obj['sequence_seed']])
+        ctx.note_case('replay-seq', True)
         return
     if 'scenario_seed' not in obj or not isinstance(obj['scenario_seed'], int):
         return main(ctx)
